@@ -11,7 +11,7 @@ NSample == EnvInt("VN", 5000)
 PTypes == {TStr, TList(TStr), TDyn}
 Params == [ty : PTypes, an : BOOLEAN, au : BOOLEAN, ad : BOOLEAN, am : BOOLEAN]
 \* argument descriptors, made concrete relative to the parameter type
-Descs == {"conf", "nonconf", "null", "unk", "dyn", "dynnull", "mtop", "mdeep", "munk", "mnull"}
+Descs == {"conf", "nonconf", "null", "unk", "dyn", "dynnull", "mtop", "mdeep", "munk", "mnull", "mdeepunk"}
 Base(t) == IF t.k = "list" THEN SeqV(TList(TStr), <<StrV(<<"a">>), StrV(<<"b">>)>>) ELSE StrV(<<"a">>)
 BT(t) == IF t.k = "list" THEN TList(TStr) ELSE TStr
 ArgVal(d, t) ==
@@ -24,6 +24,9 @@ ArgVal(d, t) ==
     [] d = "mtop" -> WithMk(Base(t), <<"m1">>)
     [] d = "mdeep" -> IF t.k = "list" THEN SeqV(TList(TStr), <<StrV(<<"a">>), WithMk(StrV(<<"b">>), <<"m2">>)>>) ELSE WithMk(Base(t), <<"m1", "m2">>)
     [] d = "munk" -> WithMk(Unk(BT(t), NoRf), <<"m2">>)
+    \* a nested mark next to a nested unknown in one argument
+    [] d = "mdeepunk" -> IF t.k = "list" THEN SeqV(TList(TStr), <<WithMk(StrV(<<"b">>), <<"m2">>), Unk(TStr, NoRf)>>)
+                         ELSE IF t.k = "dynamic" THEN SeqV(TTup(<<TStr, TStr>>), <<WithMk(StrV(<<"b">>), <<"m1">>), Unk(TStr, NoRf)>>) ELSE WithMk(Unk(TStr, [null |-> "F"]), <<"m1">>)
     [] d = "mnull" -> WithMk(Null(BT(t)), <<"m1">>)
 Tcbs == {"okT", "okDyn", "err", "panic"}
 Icbs == {"conf", "nonconf", "err", "panic", "unknown"}
